@@ -45,6 +45,15 @@ def gen_specs(rng: random.Random, tier: str, n: int) -> list[dict]:
             g = rng.choice([17, 18, 20])
             cells = [[rng.randrange(g), rng.randrange(g)] for _ in range(rng.randint(2, 6))] + [[g - 1, g - 1 - rng.randrange(3)], [g - 2, rng.randrange(g)]]
             cfg = {"name": "narrow", "grid_n": g, "n_mazes": rng.randint(1, 3), "maze_ctor": rng.choice(["gen_dfs", "gen_dfs_percolation"]), "maze_ctor_kwargs": {}, "endpoint_kwargs": {rng.choice(["allowed_start", "allowed_end"]): cells}, "seed": rng.randrange(10**6), "applied_filters": [], "endpoint_repr": "int8-arrays"}
+        far = i % 40 == 27
+        if far:
+            # coordinates beyond what one signed / unsigned byte holds: a small tree grown in the far corner of a wide grid
+            g = rng.choice([129, 130, 140, 160, 200, 257, 300])
+            corner = [g - 1 - rng.randrange(3), g - 1 - rng.randrange(3)]
+            ek = {}
+            if rng.random() < 0.4:
+                ek[rng.choice(["allowed_start", "allowed_end"])] = [[g - 1 - rng.randrange(6), g - 1 - rng.randrange(6)] for _ in range(8)] + [corner]
+            cfg = {"name": "far", "grid_n": g, "n_mazes": rng.randint(1, 3), "maze_ctor": "gen_dfs", "maze_ctor_kwargs": {"accessible_cells": rng.randint(12, 60), "start_coord": corner}, "endpoint_kwargs": ek, "seed": rng.randrange(10**6), "applied_filters": []}
         hist = []
         for _ in range(rng.choice([0, 0, 1, 1, 2]) if rng.random() > 0.03 else rng.randint(10, 16)):  # a few long parent histories
             hist.append(
